@@ -207,6 +207,7 @@ class C01(Check):
     pid = "C01"
     title = "Derivatives equal stoichiometry x rates over fully resolved values"
     rules = {
+        "A8": "(shared with C13) the static / state-dependent classification that decides which quantities the assembled right-hand side recomputes: N2 of C13 on Model._create_cache",
         "A1": "sibling agreement: Model.__call__ and Model._get_right_hand_side both accumulate exactly "
               "dxdt[cpd] += coef * values[flux] over the static table (coef = entry) and the dynamic table (coef = entry evaluated "
               "on the same values mapping that holds the fluxes), into a zero vector over all variables",
@@ -224,7 +225,7 @@ class C01(Check):
         "A5": "entry-point agreement: flux queries request exactly reactions + surrogate fluxes; every query entry point reaches _get_args "
               "(or consumes its output); component classes evaluate fn(*(values[a] for a in args)) and store under their own name",
     }
-    floors = {"A1": 4, "A2": 5, "A3": 4, "A4": 2, "A5": 10, "A6": 2, "A7": 2}
+    floors = {"A8": 3, "A1": 4, "A2": 5, "A3": 4, "A4": 2, "A5": 10, "A6": 2, "A7": 2}
     decided = [
         "both right-hand-side assemblers compute sum over static and state-dependent coefficients times fluxes, on one consistent value mapping",
         "vector form: declaration order, one entry per variable, 0 for untouched variables; integrator input/output use the same order",
@@ -243,6 +244,7 @@ class C01(Check):
         self.a5(mod)
         self.a6(mod)
         self.a7(mod)
+        self.borrow("C13", ("N2", "N3"), "A8")
 
     # ------------------------------------------------------------------
     def a1(self, mod) -> None:
